@@ -60,6 +60,10 @@ def jobs(tier, seed):
                 sweep.append({'name': 'S%03d' % len(sweep), 'type': t, 'dims': list(dims), 'desc_len': len(sweep) % 2, 'slen': 1, 'locked': len(sweep) % 5 == 0})
     for i in range(0, len(sweep), 6):
         J('shape-sweep-%d' % (i // 6), shape={'P': 1, 'C': 0, 'sub': 0, 'F': 1}, analog='empty', symbolic_meta=False, extras=sweep[i:i + 6])
+    # rates that are not whole numbers (the loader derives the sub-frame count from ANALOG:RATE / POINT:RATE): quarter-Hz steps from 1 to 6 Hz
+    for q in range(4, 25):
+        for sub_ in (2, 3, 4):
+            J('shape-sweep-rate-%dq-x%d' % (q, sub_), shape={'P': 1, 'C': 1, 'sub': sub_, 'F': 2}, symbolic_meta=False, point_rate=q / 4.0)
     J('first_frame_2', first=2)
     J('first_frame_1000', first=1000, shape={'F': 1})
     J('events3', events=3)
